@@ -556,6 +556,8 @@ func (c *c19Call) coq() string {
 		return fmt.Sprintf("(CkKeepAlive %d)", c.N)
 	case "retryretx":
 		return fmt.Sprintf("(CkRetryRetx %s %s %d)", c19KNames[c.K], cBool(c.P2), c.N)
+	case "retryclosed":
+		return fmt.Sprintf("(CkRetryClosed %s %s)", c19KNames[c.K], cBool(c.P2))
 	}
 	panic("c19: unknown call kind " + c.Kind)
 }
@@ -621,6 +623,9 @@ func (d *c19Desc) text() string {
 				w = fmt.Sprintf(" returned by Write as (n=%d, err)", d.Call.Partial)
 			}
 			return "call" + d.Call.coq() + "[cause: " + d.Child.text() + w + "]"
+		}
+		if d.Call.Kind == "retryclosed" {
+			return "call" + d.Call.coq() + []string{"[connection cut]", "[peer finished: EOF]", "[local Close()]"}[d.Call.N]
 		}
 		return "call" + d.Call.coq()
 	}
@@ -941,6 +946,54 @@ func c19DoCall(c *c19Call, cause error) (error, bool) {
 	switch c.Kind {
 	case "retryretx":
 		return c19Retx(c)
+	case "retryclosed":
+		// a RetryClient with ResponseTimeout (one hour: it never expires here) hands BaseClient its
+		// request context, whose Err() is non-nil at all times; the connection ends while the request
+		// waits for its acknowledgement: N = 0 cut, 1 the peer finishes (EOF), 2 local Close()
+		target := 1
+		if c.P2 {
+			target = 2
+		}
+		cc := c19NewConn(func(cc *c19Conn, n int, p c19Pkt) (bool, error) {
+			if n != target {
+				return false, nil
+			}
+			switch c.N {
+			case 0:
+				cc.conn.Close()
+			case 1:
+				cc.conn.finish()
+			default:
+				cc.cli.Close()
+			}
+			return true, nil
+		})
+		chErr := make(chan error, 8)
+		rc, err := c19RetryClient(cc, time.Hour, func(err error) {
+			select {
+			case chErr <- err:
+			default:
+			}
+		})
+		if err != nil {
+			return err, false
+		}
+		err, ok := c19Guard(func() error {
+			if err := c19Issue(rc, bg, c.K); err != nil {
+				return fmt.Errorf("c19: RetryClient refused the request: %v", err)
+			}
+			select {
+			case err := <-chErr:
+				return err
+			case <-time.After(30 * time.Second):
+				return errC19Stuck
+			}
+		})
+		if err == errC19Stuck {
+			ok = false
+		}
+		c19StopRetryClient(rc, cc)
+		return err, ok
 	case "req":
 		ctx := newC19Ctx(cause)
 		if c.K == c19KConnect {
@@ -1147,13 +1200,27 @@ func c19Is(err, target error) (code int) {
 	return 0
 }
 
+// c19ErrorText calls err.Error() under recover: "inspectable" includes the text.
+func c19ErrorText(err error) (txt string, panicked bool) {
+	if err == nil {
+		return "", false
+	}
+	defer func() {
+		if r := recover(); r != nil {
+			txt, panicked = fmt.Sprintf("Error() panicked: %v", r), true
+		}
+	}()
+	return err.Error(), false
+}
+
 func c19Flags(err error) []bool {
 	var te *mqtt.RequestTimeoutError
 	var re mqtt.ErrorWithRetry
 	var ce *mqtt.ConnectionError
 	var le *mqtt.Error
 	_, direct := err.(mqtt.ErrorWithRetry)
-	return []bool{errors.As(err, &te), errors.As(err, &re), errors.As(err, &ce), errors.As(err, &le), direct, err == io.EOF}
+	_, textPanics := c19ErrorText(err)
+	return []bool{errors.As(err, &te), errors.As(err, &re), errors.As(err, &ce), errors.As(err, &le), direct, err == io.EOF, textPanics}
 }
 
 // the standard targets, in the order of CheckC19.std_targets
@@ -1287,6 +1354,12 @@ func c19CauselessCalls() []*c19Call {
 			out = append(out, &c19Call{Kind: "retryretx", K: k, N: n})
 		}
 		out = append(out, &c19Call{Kind: "retryretx", K: c19KPub2, P2: true, N: n})
+	}
+	for how := 0; how <= 2; how++ {
+		for _, k := range []int{c19KPub1, c19KPub2, c19KSub, c19KUnsub} {
+			out = append(out, &c19Call{Kind: "retryclosed", K: k, N: how})
+		}
+		out = append(out, &c19Call{Kind: "retryclosed", K: c19KPub2, P2: true, N: how})
 	}
 	return out
 }
@@ -1441,6 +1514,7 @@ func c19Clients(plan []c19Plan) []int {
 }
 
 type c19AttObs struct {
+	textPanics bool
 	client int
 	nid    int
 	plan   c19Plan
@@ -1553,7 +1627,7 @@ func c19RunRetry(req *c19Request, plan []c19Plan) ([]c19AttObs, error) {
 		stuck := !returned || watchdog.Err() != nil
 		o := c19AttObs{client: own + 1, plan: p, pkts: cc.requests()[ownBefore:], stray: totalWrites(own) - before, class: c19Class(err, stuck)}
 		if err != nil {
-			o.errTxt = err.Error()
+			o.errTxt, o.textPanics = c19ErrorText(err)
 		}
 		o.nid = 1
 		if len(o.pkts) > 0 && o.pkts[0].ID != 0 {
@@ -1877,7 +1951,7 @@ func runC19(cfg *runCfg) error {
 			}
 		}
 		fc := map[string]interface{}{"value": d.text(), "errors.Is(std targets: 15 documented sentinels, 3 foreign, 15 look-alikes with the sentinels' texts, nil, 6 fresh values, uncomparable)": c.std,
-			"errors.Is(own nodes)": c.subs, "errors.Is(second build of own hand-made wrappers)": c.twins, "value.Is(std targets), if the value has an Is method": c.meth, "[As RequestTimeoutError, As ErrorWithRetry, As ConnectionError, As Error, .(ErrorWithRetry), ==io.EOF]": c.flags}
+			"errors.Is(own nodes)": c.subs, "errors.Is(second build of own hand-made wrappers)": c.twins, "value.Is(std targets), if the value has an Is method": c.meth, "[As RequestTimeoutError, As ErrorWithRetry, As ConnectionError, As Error, .(ErrorWithRetry), ==io.EOF, Error() panics]": c.flags}
 		m.Families["chain"] = append(m.Families["chain"], fc)
 		if len(m.Samples) < 3 && d.depth() >= 4 && d.shaped() && d.Kind == "call" {
 			m.Samples = append(m.Samples, fc)
@@ -2016,6 +2090,9 @@ func runC19(cfg *runCfg) error {
 				stepsHit[c19FNames[c.plan[j].F]]++
 			} else {
 				stepsHit["acknowledged"]++
+			}
+			if o.textPanics {
+				m.ImplViolations = append(m.ImplViolations, map[string]interface{}{"what": "Error() of the error an interrupted request returned panics: the error is not inspectable", "case": d})
 			}
 			if o.class == 5 {
 				m.ImplViolations = append(m.ImplViolations, map[string]interface{}{"what": "an attempt did not return although everything it waits for happened", "case": d})
